@@ -20,6 +20,48 @@ pub enum I1 {
   Poly(Vec<C>),
   Exp { k: f64, amp: C },
   Ind(f64),
+  /// structured polynomial `P_r(x)·w_r(x) + i·P_i(x)·w_i(x)` with real `P` and windows tied to an interval
+  /// `[a,b]` (`m = 0.5(a+b)`): mode 0: `1`, 1: `(x−a)(b−x)`, 2: `(x−a)(b−x)(x−m)²`, 3: `0` — real or imaginary
+  /// part vanishing EXACTLY at the end points / midpoint, purely real / purely imaginary integrands
+  Win { a: f64, b: f64, pr: Vec<f64>, pi: Vec<f64>, mr: u8, mi: u8 },
+}
+
+fn horner_r(cs: &[f64], x: f64) -> f64 {
+  cs.iter().rev().fold(0., |acc, c| acc * x + c)
+}
+
+fn win_mode(mode: u8, a: f64, b: f64, x: f64) -> f64 {
+  let m = 0.5 * (a + b);
+  match mode {
+    0 => 1.,
+    1 => (x - a) * (b - x),
+    2 => ((x - a) * (b - x)) * ((x - m) * (x - m)),
+    _ => 0.,
+  }
+}
+
+fn poly_mul(p: &[f64], q: &[f64]) -> Vec<f64> {
+  if p.is_empty() || q.is_empty() {
+    return vec![];
+  }
+  let mut r = vec![0.; p.len() + q.len() - 1];
+  for (i, x) in p.iter().enumerate() {
+    for (j, y) in q.iter().enumerate() {
+      r[i + j] += x * y;
+    }
+  }
+  r
+}
+
+fn win_poly(mode: u8, a: f64, b: f64) -> Vec<f64> {
+  let m = 0.5 * (a + b);
+  let w1 = vec![-a * b, a + b, -1.];
+  match mode {
+    0 => vec![1.],
+    1 => w1,
+    2 => poly_mul(&w1, &[m * m, -2. * m, 1.]),
+    _ => vec![],
+  }
 }
 
 fn horner(cs: &[C], x: f64) -> C {
@@ -38,6 +80,19 @@ impl I1 {
           C::new(0., 0.)
         }
       }
+      I1::Win { a, b, pr, pi, mr, mi } => C::new(horner_r(pr, x) * win_mode(*mr, *a, *b, x), horner_r(pi, x) * win_mode(*mi, *a, *b, x)),
+    }
+  }
+  /// the expanded complex polynomial of a structured integrand
+  pub fn to_poly(&self) -> I1 {
+    match self {
+      I1::Win { a, b, pr, pi, mr, mi } => {
+        let re = poly_mul(pr, &win_poly(*mr, *a, *b));
+        let im = poly_mul(pi, &win_poly(*mi, *a, *b));
+        let n = re.len().max(im.len()).max(1);
+        I1::Poly((0..n).map(|j| C::new(*re.get(j).unwrap_or(&0.), *im.get(j).unwrap_or(&0.))).collect())
+      }
+      other => other.clone(),
     }
   }
   pub fn wire(&self) -> String {
@@ -51,6 +106,7 @@ impl I1 {
       }
       I1::Exp { k, amp } => format!("exp {} {} {}", fl(*k), fl(amp.re), fl(amp.im)),
       I1::Ind(x0) => format!("ind {}", fl(*x0)),
+      I1::Win { a, b, pr, pi, mr, mi } => format!("win {} {} {} {} {} {} {} {}", fl(*a), fl(*b), mr, mi, pr.len(), fls(pr), pi.len(), fls(pi)).replace("  ", " ").trim_end().to_string(),
     }
   }
   pub fn describe(&self) -> String {
@@ -61,6 +117,12 @@ impl I1 {
       ),
       I1::Exp { k, amp } => format!("exp[k:{:e};amp:({:e},{:e})]", k, amp.re, amp.im),
       I1::Ind(x0) => format!("ind[{:e}]", x0),
+      I1::Win { a, b, pr, pi, mr, mi } => format!(
+        "win[a:{:e};b:{:e};re-mode:{};im-mode:{};re:{};im:{}]",
+        a, b, mr, mi,
+        pr.iter().map(|c| format!("{:e}", c)).collect::<Vec<_>>().join(";"),
+        pi.iter().map(|c| format!("{:e}", c)).collect::<Vec<_>>().join(";")
+      ),
     }
   }
   /// polynomial degree (number of coefficients − 1 after trimming zeros); None for non-polynomials
@@ -73,6 +135,7 @@ impl I1 {
         }
         Some(n.saturating_sub(1))
       }
+      I1::Win { .. } => self.to_poly().degree(),
       _ => None,
     }
   }
@@ -83,6 +146,7 @@ impl I1 {
       I1::Poly(cs) => cs.iter().rev().fold(0., |acc, c| acc * m + c.norm()),
       I1::Exp { amp, .. } => amp.norm(),
       I1::Ind(_) => 1.,
+      I1::Win { .. } => self.to_poly().sup(a, b),
     }
   }
   /// upper bound of sup|f^(r)| on the interval
@@ -104,6 +168,7 @@ impl I1 {
       }
       I1::Exp { k, amp } => amp.norm() * k.abs().powi(r as i32),
       I1::Ind(_) => f64::INFINITY,
+      I1::Win { .. } => self.to_poly().sup_deriv(r, a, b),
     }
   }
   /// `|b−a|·sup|f|` — the scale the results are compared at
@@ -123,6 +188,9 @@ impl I1 {
       I1::Poly(cs) => I1::Poly(cs.iter().map(|c| c * s).collect()),
       I1::Exp { k, amp } => I1::Exp { k: *k, amp: amp * s },
       I1::Ind(x) => I1::Ind(*x),
+      I1::Win { a: wa, b: wb, pr, pi, mr, mi } => {
+        I1::Win { a: *wa, b: *wb, pr: pr.iter().map(|c| c * s).collect(), pi: pi.iter().map(|c| c * s).collect(), mr: *mr, mi: *mi }
+      }
     }
   }
   /// phase advance `|k|·|b−a|` across the interval (0 for polynomials)
@@ -163,6 +231,7 @@ impl I1 {
         C::new((k * m).cos(), (k * m).sin()) * amp * (2. * h * sinc)
       }
       I1::Ind(_) => C::new(0., 0.),
+      I1::Win { .. } => self.to_poly().exact(a, b),
     }
   }
 }
@@ -274,6 +343,44 @@ pub fn gen_poly(r: &mut Rng, max_deg: usize) -> I1 {
     cs[deg] = C::new(mag, -0.5 * mag);
   }
   I1::Poly(cs)
+}
+
+/// structured polynomial of total degree ≤ `max_deg` (≥ 4) on the interval `[a,b]`
+pub fn gen_win(r: &mut Rng, a: f64, b: f64, max_deg: usize) -> I1 {
+  // (re-mode, im-mode): imaginary part vanishing at the ends / ends+midpoint, the same for the real part,
+  // purely real, purely imaginary, both windowed
+  let (mr, mi) = *r.pick(&[(0u8, 1u8), (0, 2), (1, 2), (1, 0), (2, 0), (2, 1), (0, 3), (3, 0), (1, 1), (2, 2), (3, 2), (2, 3)]);
+  let wdeg = |m: u8| match m {
+    1 => 2usize,
+    2 => 4,
+    _ => 0,
+  };
+  let mut mk = |m: u8| -> Vec<f64> {
+    if m == 3 {
+      return vec![];
+    }
+    let d = r.between(0, max_deg.saturating_sub(wdeg(m)).min(12));
+    // even / odd / full coefficient patterns
+    let parity = r.below(3);
+    (0..=d)
+      .map(|j| if parity < 2 && j % 2 != parity && j != d { 0. } else { r.range(0.3, 1.5) * if r.coin() { 1. } else { -1. } })
+      .collect()
+  };
+  let pr = mk(mr);
+  let pi = mk(mi);
+  I1::Win { a, b, pr, pi, mr, mi }
+}
+
+/// one time in four: replace `f` by a structured polynomial on `[a,b]` (inside / just above the degree class of `m`)
+fn maybe_win(r: &mut Rng, f: I1, m: Option<&Integrator>, a: f64, b: f64) -> I1 {
+  if r.below(4) != 0 || !(a.abs() <= 20. && b.abs() <= 20.) {
+    return f;
+  }
+  let max_deg = match m.and_then(degree_class) {
+    Some(dc) => (dc + if r.coin() { 0 } else { 2 }).min(24),
+    None => 8,
+  };
+  gen_win(r, a, b, max_deg)
 }
 
 pub fn gen_exp(r: &mut Rng, kmax: f64) -> I1 {
@@ -503,6 +610,29 @@ fn spp(evals: usize, kl: f64) -> f64 {
   }
 }
 
+/// aliasing indicator of adaptive Simpson on `A·exp(ikx)`: at recursion level `j` the five samples see the phase
+/// step `θ_j = kL/(4·2^j)`; a panel is accepted when `(L_j/3)|A|(1−cos θ_j)² ≤ 15·tol/2^j`, i.e.
+/// `(1−cos θ_j)²·|A|L/(45·tol) ≤ 1` (the `2^j` cancel). For `θ_j < 1` that is genuine convergence; for `θ_j ≥ 1` it is
+/// the samples aliasing (θ_j close to a multiple of 2π). Returns the minimum of that ratio over the levels with
+/// `θ_j ≥ 1` (∞ if there is none): ≤ 1 ⇒ some level accepts on aliased samples (finding D41), > 1 ⇒ none does.
+fn alias_ratio(kl: f64, tol: f64, amp_l: f64) -> f64 {
+  let mut best = f64::INFINITY;
+  let mut th = kl / 4.;
+  while th >= 1. {
+    let c = 1. - th.cos();
+    best = best.min(c * c * amp_l / (45. * tol));
+    th /= 2.;
+  }
+  best
+}
+
+fn method_tol(m: &Integrator) -> f64 {
+  match m {
+    Integrator::AdaptiveSimpson { tolerance, .. } | Integrator::GaussKonrod { tolerance, .. } | Integrator::ClenshawCurtis { tolerance } => *tolerance,
+    _ => f64::NAN,
+  }
+}
+
 // ------------------------------------------------------------------ textbook bounds
 
 fn ln_fact(n: usize) -> f64 {
@@ -575,6 +705,7 @@ pub fn run(ctx: &mut Ctx) {
     s_methods_2d(ctx, cap);
     s_switch_sweep(ctx, cap);
     s_extreme_intervals(ctx, cap);
+    s_adaptive_tight(ctx, cap);
     s_param_scans(ctx, cap);
     s_gl_ascending(ctx, cap);
     s_history(ctx, cap);
@@ -721,6 +852,7 @@ fn k_simpson(ctx: &mut Ctx) {
       b = a;
     }
     let divs = gen_divs(&mut ctx.rng);
+    let f = maybe_win(&mut ctx.rng, f, None, a, b);
     let s = f.scale(a, b);
     let via = ctx.rng.coin();
     let ff = f.clone();
@@ -787,6 +919,7 @@ fn k_adaptive(ctx: &mut Ctx) {
     if ctx.rng.below(40) == 0 {
       b = a;
     }
+    let f = maybe_win(&mut ctx.rng, f, None, a, b);
     let s = f.scale(a, b);
     let eps = match ctx.rng.below(8) {
       0 => 0.,
@@ -886,6 +1019,7 @@ fn k_gl(ctx: &mut Ctx) {
       );
     } else {
       let f = if i % 4 == 2 { gen_exp(&mut ctx.rng, 30.) } else { gen_poly(&mut ctx.rng, (2 * n - 1).min(40) + 2) };
+      let f = maybe_win(&mut ctx.rng, f, Some(&Integrator::GaussLegendre { degree }), a, b);
       let s = f.scale(a, b);
       let ff = f.clone();
       let r = guard(move || Integrator::GaussLegendre { degree }.integrate(|x| ff.eval(x), a, b));
@@ -941,10 +1075,11 @@ fn s_methods_1d(ctx: &mut Ctx, cap: Duration) {
     // high-degree polynomials only on intervals of a few units (|x|^deg must stay representable)
     let wide = f.degree().map(|d| d <= 5).unwrap_or(false) && !matches!(m, Integrator::GaussKonrod { .. });
     let (a, b) = gen_interval(&mut ctx.rng, wide);
+    let f = maybe_win(&mut ctx.rng, f, Some(&m), a, b);
     let f = if tolerance_driven(&m) { f.normalised(a, b) } else { f };
     let sc = f.scale(a, b);
     let exact = f.exact(a, b);
-    let inp = format!("{} a={:e} b={:e} kl={:.3} f={}", method_name(&m), a, b, f.kl(a, b), f.describe());
+    let inp = format!("{} a={:e} b={:e} kl={:.3} alias={:.3e} f={}", method_name(&m), a, b, f.kl(a, b), alias_ratio(f.kl(a, b), method_tol(&m), 1.), f.describe());
     let (r, t, evals) = call1(cap, m, &f, a, b);
     let inp = format!("{} spp={:.2}", inp, spp(evals, f.kl(a, b)));
     ctx.count(&format!("s1d/{}/{}", short(&m), r.tag()));
@@ -986,10 +1121,15 @@ fn s_methods_1d(ctx: &mut Ctx, cap: Duration) {
     // linearity in the integrand
     if i % 2 == 0 {
       let g = gen_integrand_for(&mut ctx.rng, &m, i / 4 + (i / 7) % 2);
+      let g = maybe_win(&mut ctx.rng, g, Some(&m), a, b);
       let g = if tolerance_driven(&m) { g.normalised(a, b) } else { g };
-      let inp = format!("{} a={:e} b={:e} kl={:.3} f={}", method_name(&m), a, b, f.kl(a, b).max(g.kl(a, b)), f.describe());
       let al = gen_c(&mut ctx.rng) + C::new(0.5, 0.);
       let be = gen_c(&mut ctx.rng) - C::new(0., 0.5);
+      let al_ratio = alias_ratio(f.kl(a, b), method_tol(&m), 1.)
+        .min(alias_ratio(f.kl(a, b), method_tol(&m), al.norm()))
+        .min(alias_ratio(g.kl(a, b), method_tol(&m), 1.))
+        .min(alias_ratio(g.kl(a, b), method_tol(&m), be.norm()));
+      let inp = format!("{} a={:e} b={:e} kl={:.3} alias={:.3e} f={}", method_name(&m), a, b, f.kl(a, b).max(g.kl(a, b)), al_ratio, f.describe());
       let (rg, _, eg) = call1(cap, m, &g, a, b);
       let (f2, g2) = (f.clone(), g.clone());
       let (rc, _) = call1_fn(cap, m, move |x| al * f2.eval(x) + be * g2.eval(x), a, b);
@@ -1037,6 +1177,8 @@ fn s_methods_2d(ctx: &mut Ctx, cap: Duration) {
     let h = gen_integrand_for(&mut ctx.rng, &m, i / 4 + (i / 8) % 2);
     let (ax, bx) = gen_interval(&mut ctx.rng, false);
     let (ay, by) = gen_interval(&mut ctx.rng, false);
+    let g = maybe_win(&mut ctx.rng, g, Some(&m), ax, bx);
+    let h = maybe_win(&mut ctx.rng, h, Some(&m), ay, by);
     let (g, h) = if tolerance_driven(&m) { (g.normalised(ax, bx), h.normalised(ay, by)) } else { (g, h) };
     let f = I2::Sep(g.clone(), h.clone());
     let sc = f.scale(ax, bx, ay, by);
@@ -1325,7 +1467,10 @@ fn acc1(ctx: &mut Ctx, cap: Duration, m: Integrator, f: &I1, a: f64, b: f64, fre
   let exact = f.exact(a, b);
   let route = if free { "free-fn" } else { "integrator" };
   let (r, t, evals) = if free { call1_free(cap, m, &f, a, b) } else { call1(cap, m, &f, a, b) };
-  let inp = format!("{} route={} ctx={} a={:e} b={:e} kl={:.3} f={}", method_name(&m), route, tag, a, b, f.kl(a, b), f.describe());
+  let inp = format!(
+    "{} route={} ctx={} a={:e} b={:e} kl={:.3} alias={:.3e} f={}",
+    method_name(&m), route, tag, a, b, f.kl(a, b), alias_ratio(f.kl(a, b), method_tol(&m), 1.), f.describe()
+  );
   ctx.count(&format!("{}/{}/{}", tag, short(&m), r.tag()));
   if matches!(r, Res::Timeout) {
     ctx.s("C12.time", false, &format!("{}/timeout", short(&m)), &format!("{} cap_s={} elapsed_s={:.2}", inp, cap.as_secs(), t));
@@ -1452,6 +1597,16 @@ fn s_param_scans(ctx: &mut Ctx, cap: Duration) {
     acc1(ctx, cap, *m, &osc, a, b, false, "scan");
     acc1(ctx, cap, *m, &cubic, a, b, i % 2 == 1 && !gk, "scan");
     if !gk {
+      // imaginary (or real) part vanishing exactly at both ends and the midpoint; purely imaginary
+      let (mr, mi) = [(0u8, 2u8), (2, 0), (3, 2), (1, 2)][i % 4];
+      let w = I1::Win { a, b, pr: if mr == 3 { vec![] } else { vec![0.7, -0.4] }, pi: vec![1.1, 0.6], mr, mi };
+      acc1(ctx, cap, *m, &w, a, b, false, "scan");
+      let w2 = I2::Sep(w.clone(), I1::Win { a: ay, b: by, pr: vec![0.5], pi: vec![-0.8, 0.3], mr: 0, mi: 2 });
+      if degree_class(m).map(|dc| dc >= 7).unwrap_or(false) {
+        exact2(ctx, cap, *m, &w2, a, b, ay, by, false, "scan");
+      }
+    }
+    if !gk {
       let f2 = match m {
         // inside every degree class: bi-cubic
         Integrator::GaussLegendre { .. } | Integrator::Simpson { .. } | Integrator::AdaptiveSimpson { .. } | Integrator::ClenshawCurtis { .. } => &bic,
@@ -1524,5 +1679,29 @@ fn s_extreme_intervals(ctx: &mut Ctx, cap: Duration) {
       };
       exact2(ctx, cap, m, &p, a, b, ay, by, false, "extreme");
     }
+  }
+}
+
+/// AdaptiveSimpson at the tight end of the statement's tolerance range (1e-12 … 1e-11) on strongly oscillatory
+/// `exp(ikx)` (k(b−a) from 30 to 3000), which needs 13–20 bisection levels: the result must still be within the
+/// requested tolerance. (Aliasing, finding D41, is told apart by `alias ≤ 1`; it is rare at these tolerances.)
+fn s_adaptive_tight(ctx: &mut Ctx, cap: Duration) {
+  let n = if ctx.thorough { 60 } else { 10 };
+  for i in 0..n {
+    let tolerance = [1e-12, 1e-11, 3e-12, 1e-12][i % 4];
+    let m = Integrator::AdaptiveSimpson { tolerance, max_depth: 26 };
+    let (a, b) = match i % 3 {
+      0 => (-0.7, 1.9),
+      1 => (0., ctx.rng.range(0.5, 3.)),
+      _ => (ctx.rng.range(-2., -0.5), ctx.rng.range(0.5, 2.)),
+    };
+    let kl = match i % 5 {
+      0 => ctx.rng.range(250., 600.),
+      1 => ctx.rng.range(600., 3000.),
+      _ => ctx.rng.log_range(30., 3000.),
+    };
+    let k = kl / (b - a) * if ctx.rng.coin() { 1. } else { -1. };
+    let f = I1::Exp { k, amp: C::from_polar(1., ctx.rng.range(0., 6.28)) };
+    acc1(ctx, cap, m, &f, a, b, i % 2 == 1, "tight");
   }
 }
